@@ -119,4 +119,57 @@ def Fresh (du : List U) (dt : List T) : List (Op U T P S × Nat) → Prop
   | (op, _) :: rest => FreshOp du dt op ∧ Fresh (drawU du op) (drawT dt op) rest
 
 end
+
+/-! ### What set-up code denotes
+
+Read from the END of the set-up code: the provider's configuration is the one handed to the LAST `with_config`
+(the defaults if there is none, or if the provider was re-made by `AuthProvider::default()` after it); in that
+configuration every field has the value of the LAST call of its method made on that `AuthConfig` value, i.e. since
+the last `AuthConfig::default()` before the `with_config`, whatever the order of the calls and whatever other methods
+were called in between; a field whose method was not called has its default (3600 s, 3600 s, no pepper). -/
+section
+variable {Pep : Type}
+
+structure Eff (Pep : Type) where
+  lifetime : Nat
+  refreshLifetime : Nat
+  pepper : Pep
+
+def installs : BCall Pep → Bool
+  | .withConfig => true
+  | .providerDefault => true
+  | _ => false
+
+def startsConfig : BCall Pep → Bool
+  | .newConfig => true
+  | _ => false
+
+def asLifetime : BCall Pep → Option Nat
+  | .defaultLifetime l => some l
+  | _ => none
+
+def asRefresh : BCall Pep → Option Nat
+  | .refreshLifetime l => some l
+  | _ => none
+
+def asPepper : BCall Pep → Option Pep
+  | .pepper p => some p
+  | _ => none
+
+/-- The fields denoted by the calls `back` (latest first) made on one `AuthConfig` value. -/
+def fieldsOf (noPepper : Pep) (back : List (BCall Pep)) : Eff Pep :=
+  let seg := back.takeWhile (fun c => !startsConfig c)
+  { lifetime := (seg.findSome? asLifetime).getD 3600,
+    refreshLifetime := (seg.findSome? asRefresh).getD 3600,
+    pepper := (seg.findSome? asPepper).getD noPepper }
+
+/-- `back` = the set-up code, latest call first. -/
+def effectiveBack (noPepper : Pep) (back : List (BCall Pep)) : Eff Pep :=
+  match back.dropWhile (fun c => !installs c) with
+  | .withConfig :: before => fieldsOf noPepper before
+  | _ => fieldsOf noPepper []
+
+def effective (noPepper : Pep) (calls : List (BCall Pep)) : Eff Pep := effectiveBack noPepper calls.reverse
+
+end
 end Humphrey.Auth.Spec
